@@ -68,7 +68,7 @@ Proof. intros J E ls s css Hwf. exact (deliveries_bounded J E Hwf ls s css). Qed
 Definition roJ : job := {| j_ins := list_to_map [(0, ∅); (1, {[(0, 0)]})]; j_nout := list_to_map [(0, 2); (1, 1)];
                            j_gpu := ∅; j_ext := ∅; j_none := ∅ |}.
 Definition roE : env := {| e_host := list_to_map [(0, 0)]; e_gpu := ∅ |}.
-Definition ro_labels : list label := [LAssign 0 0 ∅; LFlush; LFinish 0; LDeliver (EPub 0 (0, 1))].
+Definition ro_labels : list label := [LAssign 0 0 ∅; LFlush; LPublish 0 0; LPublish 0 1; LDeliver (EPub 0 (0, 1))].
 
 Theorem C03_reordered_publications_refuted :
   wf_job roJ ∧ wf_dag roJ (λ t, N.to_nat t) ∧
@@ -87,7 +87,7 @@ Qed.
 Definition noJ : job := {| j_ins := list_to_map [(0, ∅)]; j_nout := list_to_map [(0, 1)];
                            j_gpu := ∅; j_ext := {[(0, 0)]}; j_none := {[(0, 0)]} |}.
 Definition no_labels : list label :=
-  [LAssign 0 0 ∅; LFlush; LFinish 0; LDeliver (EPub 0 (0, 0)); LFlush; LFetch ((0, 0), 0); LDeliver (EPay (0, 0) None); LFlush].
+  [LAssign 0 0 ∅; LFlush; LPublish 0 0; LDeliver (EPub 0 (0, 0)); LFlush; LFetch ((0, 0), 0); LDeliver (EPay (0, 0) None); LFlush].
 
 Theorem C03_none_valued_output_refuted :
   match run noJ roE (init noJ roE) no_labels with
